@@ -177,6 +177,12 @@ where
     W: Write + Send,
 {
     fn drop(&mut self) {
+        // A writer that is dropped before it wrote anything has not waited for its turn yet.
+        // Releasing the next writer now would let its response overtake (or interleave with)
+        // the responses of earlier requests.
+        if let Some(trigger) = self.trigger.take() {
+            trigger.recv().ok();
+        }
         self.on_finish.send(()).ok();
     }
 }
